@@ -68,7 +68,9 @@ func run(r *vk.Run, prog []model.Node, partials map[string][]model.Node, class s
 			},
 		})
 	}
-	want := model.RunWith(prog, c05Data(), mk(&mcount), partials)
+	mh := mk(&mcount)
+	mh["range"] = func(a []interface{}) (interface{}, error) { return &mrange{a[0].(int), a[1].(int)}, nil } // model only: plush has the built-in
+	want := model.RunWith(prog, c05Data(), mh, partials)
 	if want.Unspec != "" {
 		r.Exclude("unspecified")
 		return nil
@@ -123,10 +125,32 @@ func run(r *vk.Run, prog []model.Node, partials map[string][]model.Node, class s
 	return nil
 }
 
+type countIter struct{ i, n int }
+
+func (c *countIter) Next() interface{} {
+	if c.i >= c.n {
+		return nil
+	}
+	c.i++
+	return c.i
+}
+
+// model-side counterpart of the built-in range helper
+type mrange struct{ cur, end int }
+
+func (m *mrange) Next() interface{} {
+	if m.cur > m.end {
+		return nil
+	}
+	m.cur++
+	return m.cur - 1
+}
+
 // c05Data: the shared data plus a three-entry map (visited in any order by plush; the
 // positions that loop over it render nothing, so only error-ness is compared)
 func c05Data() map[string]interface{} {
 	d := progs.Data()
+	d["it"] = &countIter{n: 3} // a custom Iterator (fresh per render)
 	d["mp"] = &model.OrderedMap{Keys: []interface{}{"k1", "k2", "k3"}, Vals: map[interface{}]interface{}{"k1": 1, "k2": 2, "k3": 3}}
 	return d
 }
@@ -168,6 +192,16 @@ func positions(f model.Expr) map[string][]model.Node {
 	out["map loop body, no entry"] = []model.Node{T("a"), model.Code{S: model.ForS{For: &model.For{Key: "k", Val: "v", Iter: model.Var{Name: "mp"}, Body: []model.Node{
 		model.Code{S: model.IfS{If: &model.If{Cond: model.Bin{Op: "==", L: model.Var{Name: "v"}, R: lit(9)}, Then: []model.Node{model.Code{S: model.LetS{Name: "z", X: f}}}}}}}}}}, T("b")}
 	out["map loop iterable value"] = []model.Node{T("a"), model.Code{S: model.ForS{For: &model.For{Val: "v", Iter: model.Idx{X: model.Hash{KVs: []model.KV{{K: "p", V: model.Arr{Els: []model.Expr{f}}}}}, I: lit("p")}, Body: nil}}}, T("b")}
+	// loops over ITERATORS (built-in range, a custom Iterator): body, later iteration, silent body
+	rng := model.Call{Fn: "range", Args: []model.Expr{lit(1), lit(3)}}
+	out["range loop body"] = []model.Node{T("a"), model.EmitFor{For: &model.For{Val: "v", Iter: rng, Body: []model.Node{T("x"), emit(f)}}}, T("b")}
+	out["range loop body, last iteration"] = []model.Node{T("a"), model.EmitFor{For: &model.For{Val: "v", Iter: rng, Body: []model.Node{T("x"),
+		model.EmitIf{If: &model.If{Cond: model.Bin{Op: "==", L: model.Var{Name: "v"}, R: lit(3)}, Then: []model.Node{emit(f)}}}}}}, T("b")}
+	out["custom iterator loop body"] = []model.Node{T("a"), model.EmitFor{For: &model.For{Key: "k", Val: "v", Iter: model.Var{Name: "it"}, Body: []model.Node{T("x"),
+		model.EmitIf{If: &model.If{Cond: model.Bin{Op: "==", L: model.Var{Name: "k"}, R: lit(1)}, Then: []model.Node{emit(f)}}}}}}, T("b")}
+	out["silent iterator loop body in a function"] = []model.Node{model.Code{S: model.LetS{Name: "uf", X: model.FnLit{Body: []model.Node{
+		model.Code{S: model.ForS{For: &model.For{Val: "v", Iter: rng, Body: []model.Node{model.Code{S: model.LetS{Name: "z", X: f}}}}}}, model.Code{S: model.ReturnS{X: lit("done")}}}}}},
+		T("a"), emit(model.Call{Fn: "uf"}), T("b")}
 	out["array element"] = []model.Node{T("a"), emit(model.Arr{Els: []model.Expr{lit(1), f, lit(2)}}), T("b")}
 	out["hash value"] = []model.Node{T("a"), emit(model.Idx{X: model.Hash{KVs: []model.KV{{K: "p", V: lit(1)}, {K: "q", V: f}}}, I: lit("p")}), T("b")}
 	out["index"] = []model.Node{T("a"), emit(model.Idx{X: model.Var{Name: "arr"}, I: f}), T("b")}
@@ -197,7 +231,7 @@ func partialsFor(f model.Expr) map[string][]model.Node {
 	}
 }
 
-const rule = "(E) each of 6 faults - a helper returning a sentinel error, 1/0, 1 + \"a\", arr[99], an unknown identifier, a helper whose error WRAPS an unknown-identifier error (as a nested render does) - planted at each of 64 syntactic positions (either operand of all 13 operators, short-circuited operands, !, emitted, silent tag, let / assignment value, if / else-if condition (reached and not reached), taken / untaken / else branch body, silent if body, loop iterable / body / second iteration / empty loop / silent loop, a map loop in which one / no entry reaches the fault (repeated, any visiting order), array element, hash value, index, argument of Go helper / user function, user function body (called / not called), block of a block helper, contentFor block rendered / never rendered by contentOf, contentOf / partial data value, partial body, nested partial body, after 750 bytes of output). (R) random well-formed programs over all constructs in which about one leaf in seven is a fault. Oracle: the statement's own (failing helper invoked => non-nil error, errors.Is(err, original), empty output) plus, in both directions, the reference interpreter: the render fails exactly when the reference says a fault is evaluated outside the tolerated positions (unknown identifier as condition or operand of ! == != && ||), and otherwise renders the reference output. Non-trivial = the program contains a fault (reached or not); distinct by template + partial texts."
+const rule = "(E) each of 6 faults - a helper returning a sentinel error, 1/0, 1 + \"a\", arr[99], an unknown identifier, a helper whose error WRAPS an unknown-identifier error (as a nested render does) - planted at each of 68 syntactic positions (either operand of all 13 operators, short-circuited operands, !, emitted, silent tag, let / assignment value, if / else-if condition (reached and not reached), taken / untaken / else branch body, silent if body, loop iterable / body / second iteration / empty loop / silent loop, loops over the built-in range iterator and a custom Iterator (body, last iteration, silent body inside a function), a map loop in which one / no entry reaches the fault (repeated, any visiting order), array element, hash value, index, argument of Go helper / user function, user function body (called / not called), block of a block helper, contentFor block rendered / never rendered by contentOf, contentOf / partial data value, partial body, nested partial body, after 750 bytes of output). (R) random well-formed programs over all constructs in which about one leaf in seven is a fault. Oracle: the statement's own (failing helper invoked => non-nil error, errors.Is(err, original), empty output) plus, in both directions, the reference interpreter: the render fails exactly when the reference says a fault is evaluated outside the tolerated positions (unknown identifier as condition or operand of ! == != && ||), and otherwise renders the reference output. Non-trivial = the program contains a fault (reached or not); distinct by template + partial texts."
 
 func setup(t *testing.T) *vk.Run {
 	r := vk.Start(t, "C05", rule,
@@ -255,7 +289,7 @@ func TestProp(t *testing.T) {
 			}
 		}
 	}
-	r.Subspace("6 fault kinds x 64 syntactic positions", cells, true)
+	r.Subspace("6 fault kinds x 68 syntactic positions", cells, true)
 
 	r.Rapid("programs", r.Pick(6000, 80000), func(t *rapid.T) *vk.Fail {
 		g := progs.New(t, progs.Options{MaxDepth: 3, FaultRate: rapid.SampledFrom([]int{4, 7, 15}).Draw(t, "rate"), Faults: faults})
